@@ -4,6 +4,7 @@ import (
 	"bytes"
 	"encoding/binary"
 	"fmt"
+	"iter"
 	"math"
 	"math/big"
 	"net"
@@ -247,6 +248,55 @@ func TestVerif_BlackBox(t *testing.T) {
 		ci++
 		check(fmt.Sprintf("LowerBound(%x)", s), statedb.Collect(tbl.LowerBound(rtxn, sIndex.Query(s))), want, ci)
 	}
+	// the same queries through a write transaction that has already written to the table (its index transaction is live and
+	// search keys are escaped on the way in): all results are obtained first, in ascending and then in descending key order,
+	// and consumed afterwards - a result must depend on its own key only (c18r8-1: escaped search key kept in a scratch buffer)
+	w2 := db.WriteTxn(tbl)
+	extra := obj{P: []byte("zz-extra"), S: []byte{0x01, 0x00}}
+	tbl.Insert(w2, extra)
+	pairs2 := append(append([]pair{}, pairs...), pair{extra.S, extra.P})
+	sort.Slice(pairs2, func(i, j int) bool {
+		if c := bytes.Compare(pairs2[i].s, pairs2[j].s); c != 0 {
+			return c < 0
+		}
+		return bytes.Compare(pairs2[i].p, pairs2[j].p) < 0
+	})
+	qs := append(append([][]byte{}, strs...), []byte("long"))
+	for pass := 0; pass < 2; pass++ {
+		if pass == 1 {
+			for i, j := 0, len(qs)-1; i < j; i, j = i+1, j-1 {
+				qs[i], qs[j] = qs[j], qs[i]
+			}
+		}
+		type held struct {
+			what string
+			seq  iter.Seq2[obj, statedb.Revision]
+			want []pair
+		}
+		var hs []held
+		for _, s := range qs {
+			var wl, wp, wb []pair
+			for _, p := range pairs2 {
+				if bytes.Equal(p.s, s) {
+					wl = append(wl, p)
+				}
+				if bytes.HasPrefix(p.s, s) {
+					wp = append(wp, p)
+				}
+				if bytes.Compare(p.s, s) >= 0 {
+					wb = append(wb, p)
+				}
+			}
+			hs = append(hs, held{fmt.Sprintf("wtxn-held/List(%x)", s), tbl.List(w2, sIndex.Query(s)), wl},
+				held{fmt.Sprintf("wtxn-held/Prefix(%x)", s), tbl.Prefix(w2, sIndex.Query(s)), wp},
+				held{fmt.Sprintf("wtxn-held/LowerBound(%x)", s), tbl.LowerBound(w2, sIndex.Query(s)), wb})
+		}
+		for _, h := range hs {
+			ci++
+			check(h.what, statedb.Collect(h.seq), h.want, ci)
+		}
+	}
+	w2.Abort()
 	r.Sample(map[string]any{"objects": len(pairs), "queries": ci, "first": fmt.Sprintf("sec=%x pri=%x", pairs[0].s, pairs[0].p)})
 	r.Finish()
 }
